@@ -47,6 +47,19 @@ func c08PointHook(id string) {
 	}
 }
 
+// c08BumpOnce adds 1 to every integer literal: applied twice it gives another program.
+type c08BumpOnce struct{}
+
+func (c08BumpOnce) Enter(*ast.Node) {}
+func (c08BumpOnce) Exit(n *ast.Node) {
+	if i, ok := (*n).(*ast.IntegerNode); ok {
+		ast.Patch(n, &ast.IntegerNode{Value: i.Value + 1})
+	}
+}
+
+// c08SharedLists: option slices handed to every Compile call as they are; entry 1 of each is nil and must stay nil.
+var c08SharedLists [][]expr.Option
+
 type c08CompileEnv struct {
 	S, Tag string
 	I      int
@@ -126,7 +139,8 @@ func c08CompileJobs() []c08CompileJob {
 	sharedMapOpt := expr.Env(mapEnv)
 	undef := expr.AllowUndefinedVariables()
 	opS, opSI := expr.Operator("+", "AddS"), expr.Operator("+", "AddS", "AddI") // two tables for one operator, overlapping
-	sharedListWithNil := []expr.Option{sharedEnvOpt, nil, undef, expr.Optimize(true)}
+	sharedListWithNil := []expr.Option{sharedEnvOpt, nil, expr.Patch(c08BumpOnce{}), undef}
+	c08SharedLists = append(c08SharedLists, sharedListWithNil)
 	return []c08CompileJob{
 		{`S + Tag + (I + 1 > 0 ? "x" : "y")`, func(y *c08Yield) []expr.Option {
 			return []expr.Option{sharedEnvOpt, opSI, opS, expr.Patch(y)}
@@ -143,7 +157,7 @@ func c08CompileJobs() []c08CompileJob {
 		{"I +\n   7 / (3 - 3)", func(y *c08Yield) []expr.Option {
 			return []expr.Option{sharedEnvOpt, expr.Patch(y)}
 		}},
-		{`I + len(S)`, func(y *c08Yield) []expr.Option { // ONE option slice shared by every call, with a nil entry in the middle
+		{`I + len(S) + 40`, func(y *c08Yield) []expr.Option { // ONE option slice shared by every call, with a nil entry in the middle
 			return sharedListWithNil
 		}},
 		{`S + Tag + "x"`, func(y *c08Yield) []expr.Option {
@@ -248,6 +262,12 @@ func c08CompileScenarios(r *report.Run, order *int64) (schedules, steps int64, c
 		}
 	}
 	c08FinePoints = false
+	for _, l := range c08SharedLists {
+		if len(l) > 1 && l[1] != nil {
+			r.Report(report.Violation{Sub: "scheduler-compile", Kind: "shared-option-slice-modified", Witness: "Compile wrote into the option slice of its caller", Order: *order})
+			break
+		}
+	}
 	r.Set("compile_schedules_at_method_granularity", fineSchedules)
 	r.Set("compile_scheduling_points_hit", c08PointsHit)
 	return
